@@ -81,6 +81,15 @@ def catalogue():
         "slice-from-0": ("drop", 0, lambda E, H, c, L, mk: E.slice_from(L, 0, c), "any", "same", "same"),
         "slice-from-minus-2": ("same", 0, lambda E, H, c, L, mk: E.slice_from(L, -2, c), "any", "same", "same"),
         "every-1st": ("every", 1, lambda E, H, c, L, mk: E.index(L, [None, None, 1], c), "any", "same", "same"),
+        # the OTHER documented operand order of the dyads that accept both (function first, the endless list second)
+        "filter-fn-first": ("filter", 3, lambda E, H, c, L, mk: E.vy_filter(lambda x: x % 3 == 0, L, c), "scalar-distinct", True, True),
+        "map-fn-first": ("same", 0, lambda E, H, c, L, mk: E.vy_map(inc(E, c), L, c), "any", "same", "same"),
+        "zip-endless-right": ("same", 0, lambda E, H, c, L, mk: E.vy_zip(mk(), L, c), "any", False, "same"),
+        "interleave-right": ("half", 0, lambda E, H, c, L, mk: E.interleave(mk(), L, c), "any", "same", False),
+        "add-list-left": ("same", 0, lambda E, H, c, L, mk: E.add(mk(), L, c), "scalar", True, False),
+        # streams that MIX texts and numbers (then chunked / windowed / zipped by a later stage)
+        "prepend-text": ("pre", 1, lambda E, H, c, L, mk: E.prepend(L, "a", c), "any", False, False),
+        "interleave-texts": ("half", 0, lambda E, H, c, L, mk: E.interleave(L, E.vy_map(mk(), lambda x: "t", c), c), "any", False, False),
         # a TEXT scalar on the right of a vectorising dyad (formatting each item)
         "modulo-text-right": ("same", 0, lambda E, H, c, L, mk: E.modulo(L, "<%>", c), "any", False, "same"),
         "add-text-right": ("same", 0, lambda E, H, c, L, mk: E.add(L, "!", c), "any", False, "same"),
@@ -161,6 +170,21 @@ def observe(case):
         except Exception as e:  # noqa: BLE001
             ev.append({"e": "raise", "j": k, "pulled": count[0], "what": "take-" + type(e).__name__})
             return {"pipe": pipe, "names": names, "ev": ev}
+    # ... and by the first-n element in both documented operand orders (list then count, count then list)
+    if not short:
+        for order in (0, 1):
+            try:
+                got = common.with_alarm(lambda _: list(E.zero_slice(R, 5, ctx) if order == 0 else E.zero_slice(5, R, ctx)), None, 5)
+                if len(got) != 5:
+                    ev.append({"e": "raise", "j": 5, "pulled": count[0], "what": f"first-5-by-element-gave-{len(got)}"})
+                    return {"pipe": pipe, "names": names, "ev": ev}
+                ev.append({"e": "out", "j": 4, "pulled": count[0], "what": ""})
+            except common.CaseTimeout:
+                ev.append({"e": "hang", "j": 5, "pulled": count[0], "what": "take-by-element"})
+                return {"pipe": pipe, "names": names, "ev": ev}
+            except Exception as e:  # noqa: BLE001
+                ev.append({"e": "raise", "j": 5, "pulled": count[0], "what": "take-by-element-" + type(e).__name__})
+                return {"pipe": pipe, "names": names, "ev": ev}
     for j in range(0 if short else n):
         try:
             common.with_alarm(lambda _: R[j], None, 5)
